@@ -1,9 +1,10 @@
-from . import streams_codec, cli, streams_ugrid
+from . import streams_codec, cli, streams_ugrid, streams_gathermeshb
 
 ID = 'C08'
-PROPS_MODULE = ['Refine.Props.C08', 'Refine.Props.C08Endian', 'Refine.Props.C08Ugrid']
+PROPS_MODULE = ['Refine.Props.C08', 'Refine.Props.C08Endian', 'Refine.Props.C08Ugrid', 'Refine.Props.C08Gather']
 STREAMS = [streams_codec.MESHB_WRITE, streams_codec.MESHB_READ, cli.CONVERT, cli.CONVERT_MPI,
-           streams_ugrid.WRITE, streams_ugrid.READ, streams_ugrid.PART, streams_ugrid.GATHER]
+           streams_ugrid.WRITE, streams_ugrid.READ, streams_ugrid.PART, streams_ugrid.GATHER,
+           streams_gathermeshb.GATHERMESHB]
 EXPLANATION = (
     'Proved in Lean (Refine/Props/C08.lean): decodeMeshb (encodeMeshb v m) = ok m for every WellFormed mesh and '
     'v in {2,3,4} (all 16 cell groups, vertex coordinates as bit patterns, ids, geometry records with gref as a '
@@ -39,10 +40,34 @@ EXPLANATION = (
     'writer == mesh; ugrid_part[np=1,2,3,5] — ref_part_by_extension under MPI: gathered owned vertices and owned cell '
     'multiset incl. tags, per-rank local cell and node counts == model; ugrid_gather[np=1,2,3] — ref_gather_by_extension '
     'bytes == gatherUgrid bytes (vertices in global order, cells in owner-rank order).  The oracles parse / write with the '
-    'independent UFile reader/writer of checks/streams_ugrid.py.')
+    'independent UFile reader/writer of checks/streams_ugrid.py.  '
+    'PARALLEL libMeshb WRITER (Refine/Props/C08Gather.lean, model Refine/Model/GatherMeshb.lean = ref_gather_meshb as an SPMD '
+    'function of the per-rank states: header and version choice, ref_gather_node chunk loop, ref_cell_ncell + ref_gather_cell '
+    'per group with the owner filter and BOTH copies of the pyramid re-ordering, ref_gather_ngeom + ref_gather_geom with BOTH '
+    'copies of the record writer and the worker message columns, CAD bytes, End, every next_position): gatherMeshb_eq_encode — '
+    'for every rank count >= 1, every distribution that owns each vertex once, every chunk size >= 1 and version, the bytes '
+    'rank 0 writes are exactly encodeMeshb (the serial writer) of the gathered mesh (vertices by global id, cells and records '
+    'in (emitting rank, local order) order); gatherMeshb_roundtrip — decodeMeshb of them is that mesh; pyramid_reorderings — '
+    'the two re-orderings of ref_gather_cell are one permutation, the serial writer\'s, inverted by ref_part_meshb_cell and '
+    'ref_import_meshb (tables regenerated per copy); geom_writers_agree / geom_message_columns — both record writers of '
+    'ref_gather_geom write the record\'s own (vertex, id, parameters, gref); gather_cell_flags.  Tie (harness h_gathermeshb, '
+    'driver gathermeshb, stream gathermeshb[np=1..5]): the bytes of the file the real ref_gather_by_extension(".meshb") writes '
+    'under mpiexec == the model\'s bytes, on generated distributed meshes with all seven linear cell kinds (sometimes '
+    'quadratic ones), pyramids/prisms owned by every rank in turn, association records of types 0/1/2 owned by every rank '
+    'with gref != id (negative, +-2^31 limits), stale ghost copies, CAD blobs, versions 2/3/4 and automatic, 2-D/3-D, reduce '
+    'byte limits giving several chunks, unowned / doubly owned vertices (failure branch); at one rank the same grid also goes '
+    'through the SERIAL writer ref_export_by_extension and must give the same bytes.  Oracle: an independent keyword-chain '
+    'walker + checks/pyio.py parse the file: every next_position exact, vertices bitwise in global order, cell multisets with '
+    'vertex order and ids, association-record multisets (type, vertex, id, gref, parameters), CAD bytes, serial == parallel.')
 ASSUMPTIONS = [
-    'serial reader/writer only (ref_import_meshb / ref_export_meshb); the parallel pair ref_part/ref_gather is tied '
-    'only through the translated pyramid shuffles',
+    'meshb: serial reader/writer (ref_import_meshb / ref_export_meshb) and the parallel writer ref_gather_meshb are modelled and '
+    'tied; the parallel reader is package partmeshb.  Parallel writer: coordinates of the generated meshes avoid -0.0 and NaN '
+    '(ref_gather_node sums the owner\'s value with 0.0 padding: known finding ref_gather:sum-padding-loses-negative-zero; the '
+    'theorems ask 0.0 + x = x = x + 0.0 only of the owned coordinates: hypothesis SumExact); association ids/grefs are REF_INT '
+    '(no value above 2^31 can be stored); N <= 34 vertices per generated mesh, so the automatic version thresholds (10^7, '
+    '2*10^8 vertices, regenerated constants) are reached only by the theorem; an unowned vertex makes ref_gather_meshb return '
+    'before fclose (the partial file is not compared); with N = 0 the parallel writer still writes an empty vertex keyword '
+    'which the serial writer omits (outside WellFormed: nodes_pos)',
     'binary ugrid: modelled and tied (Refine.Model.Ugrid); su2, msh, fgrid, ascii .ugrid, .r8.ugrid are not covered.  '
     'ugrid: the generated test meshes keep boundary faces and volume cells on disjoint vertex sets so that '
     'ref_grid_inward_boundary_orientation (outside the model, run by ref_import_by_extension / ref_part_bin_ugrid) has '
@@ -63,4 +88,5 @@ ASSUMPTIONS = [
     'fopen/fseeko/fread semantics of the C library; integer width: counts and ids are REF_INT (32 bit) in the model',
 ]
 TRUSTED = ['tools/translate_more_codec.py (keyword table, pyramid shuffles, metric order, constants)',
+           'tools/translate_more_gathermeshb.py (version thresholds, ref_gather_cell flags, ref_gather_geom message columns)',
            'checks/meshio_ref.py as the independent statement of the libMeshb layout']
